@@ -85,16 +85,34 @@ const (
 )
 
 // saveMapGob saves a map to a file using gob encoding.
-func saveMapGob[K comparable, V any](filePath string, data map[K]V) error {
-	file, err := os.Create(filePath)
+// The file is replaced atomically: the encoding is written to a temporary file next to it,
+// synced, and renamed over filePath, so a crash at any point leaves either the previous
+// complete file or the new complete file at filePath, never a partially written one.
+func saveMapGob[K comparable, V any](filePath string, data map[K]V) (err error) {
+	tmpPath := filePath + ".tmp"
+	file, err := os.Create(tmpPath)
 	if err != nil {
-		return fmt.Errorf("failed to create file %s: %w", filePath, err)
+		return fmt.Errorf("failed to create file %s: %w", tmpPath, err)
 	}
-	defer file.Close()
+	defer func() {
+		if err != nil {
+			_ = file.Close()
+			_ = os.Remove(tmpPath)
+		}
+	}()
 
 	encoder := gob.NewEncoder(file)
-	if err := encoder.Encode(data); err != nil {
-		return fmt.Errorf("failed to encode to file %s: %w", filePath, err)
+	if err = encoder.Encode(data); err != nil {
+		return fmt.Errorf("failed to encode to file %s: %w", tmpPath, err)
+	}
+	if err = file.Sync(); err != nil {
+		return fmt.Errorf("failed to sync file %s: %w", tmpPath, err)
+	}
+	if err = file.Close(); err != nil {
+		return fmt.Errorf("failed to close file %s: %w", tmpPath, err)
+	}
+	if err = os.Rename(tmpPath, filePath); err != nil {
+		return fmt.Errorf("failed to rename %s to %s: %w", tmpPath, filePath, err)
 	}
 	return nil
 }
